@@ -698,3 +698,9 @@ def generate(repo: Path, outdir: Path, write_if_changed):
     cs += ",\n".join(f"  ({lean_str(n)}, {lean_str(e)}, {d})" for n, e, d in consts)
     cs += "\n]\n\nend Mk.Generated\n"
     write_if_changed(outdir / "Constants.lean", cs)
+    # source translation of the pure algorithmic functions (Generated/Src.lean), see tools/py2lean.py
+    import importlib.util
+    _spec = importlib.util.spec_from_file_location("py2lean", Path(__file__).resolve().parent / "py2lean.py")
+    _m = importlib.util.module_from_spec(_spec)
+    _spec.loader.exec_module(_m)
+    _m.generate(repo, outdir, write_if_changed)
